@@ -500,7 +500,11 @@ def generate_runs(ctx, prop):
 
 def _process(ctx, prop, cases, tools_every, base_i):
     """replay + trace validation of one list of cases -> (failures, nontrivial, evaluations, samples, nrecords)"""
-    items = [(base_i + i, c, prop, ((base_i + i) % tools_every == 0)) for i, c in enumerate(cases)]
+    # the tool routes take every tools_every-th document, and every document that has BOTH frontmatter and a literal zone (the write path
+    # strips the one and looks for fences of the other before the reader sees the text)
+    def both(c):
+        return c["doc"].get("fm") not in (None, "-") and "```" in json.dumps(c.get("lines", ""))
+    items = [(base_i + i, c, prop, ((base_i + i) % tools_every == 0) or both(c)) for i, c in enumerate(cases)]
     try:
         records = engine.parallel_map(replay, items, chunk=100)
     finally:
